@@ -172,6 +172,7 @@ def layout(run, prop, with_matrix=True):
     run.props()
     big = run.tier == 'thorough'
     run.suite('render', 'f0_corr.py', [run.seed, 4800 if big else 800], 'F0')
+    run.suite('gap-helpers', 'fcorr.py', ['gap', 7 if big else 6, 300, run.seed], 'FC_gap')      # trivia.py's gap helpers = the model's, exhaustively on short gaps
     if with_matrix: matrix(run, prop)
     res = oracle(run, 'render-search', 'render_search.py', [prop, run.seed, 6000 if big else 900], timeout=3000)
     hits = res.get('known_hits', {}) if res else {}
